@@ -132,7 +132,7 @@ func (idx *BigIndexWriter) Flush() error {
 		valueIdx := binary.BigEndian.Uint64(k[:8])
 		rowID := binary.BigEndian.Uint32(k[8:])
 
-		if currentValueIdx != valueIdx {
+		if bm == nil || currentValueIdx != valueIdx {
 			// bm == nil indicates that this is for the first valueIdx, so we don't need to do
 			// a full rotate yet.
 			if bm != nil {
